@@ -446,7 +446,12 @@ fn b_run_history(cfg: &BCfg, history: &[String]) -> (String, Vec<String>, Vec<St
     let d = Dispatch::new(Registry::default().with(filter).with(FL { id: 1 }));
     let spans = bspans();
     let events = b_events();
-    let hist = history.to_vec();
+    // end-of-history probes: every event once more after the last step, so that a state the
+    // de-duplication key cannot see (the filter's own per-thread scope stack) still shows
+    let mut hist = history.to_vec();
+    if history.last().map_or(false, |l| !l.starts_with("ev:")) {
+        hist.extend((0..events.len()).map(|i| format!("ev:{}", i)));
+    }
     let cfgc = cfg.clone();
     let out = std::thread::spawn(move || {
         let cfg = cfgc;
